@@ -113,6 +113,59 @@ func (a *Act) intrinsic(name string, fv FuncV, args []Value) (Value, bool) {
 		return True, true
 	case "strings.HasSuffix":
 		return in.fresh("hasSuffix", BoolSort), true
+	case "strings.HasPrefix":
+		// memoised: a function of the string and the (constant) prefix
+		s0, pre := args[0].(StrV), args[1].(StrV)
+		if s0.conc && pre.conc {
+			return BoolC(strings.HasPrefix(s0.s, pre.s)), true
+		}
+		return UF("strings.HasPrefix", BoolSort, strID(s0), strID(pre)), true
+	case "strings.TrimPrefix":
+		s0, pre := args[0].(StrV), args[1].(StrV)
+		if s0.conc && pre.conc {
+			return ConcStr(strings.TrimPrefix(s0.s, pre.s)), true
+		}
+		return StrV{id: UF("strings.TrimPrefix", BVS(32), strID(s0), strID(pre))}, true
+	case "strconv.ParseInt":
+		s0 := args[0].(StrV)
+		val := UF("strconv.ParseInt.value", BVS(64), strID(s0))
+		bad := UF("strconv.ParseInt.fails", BoolSort, strID(s0))
+		tag := "strconv.NumError"
+		errv := IfaceV{alts: []IfaceAlt{{g: bad, typ: in.opaqueType(tag), val: OpaqueV{tag: tag}}}, nilG: Not(bad)}
+		return TupleV{Ite(bad, BV(64, 0), val), errv}, true
+	case "regexp.Compile", "regexp.MustCompile":
+		lit := argStr(args[0])
+		obj := a.alloc(StructV{f: []Value{ConcStr(lit)}})
+		in.events = append(in.events, "regexp "+lit)
+		in.regexLits = append(in.regexLits, lit)
+		if name == "regexp.MustCompile" {
+			return ptrTo(obj), true
+		}
+		return TupleV{ptrTo(obj), nilIface()}, true
+	case "(*regexp.Regexp).MatchString":
+		re := args[0].(PtrV)
+		lit := a.load(re).(StructV).f[0].(StrV)
+		s0 := args[1].(StrV)
+		return UF("regexp.MatchString", BoolSort, strID(lit), strID(s0)), true
+	case "(*regexp.Regexp).String":
+		return a.load(args[0].(PtrV)).(StructV).f[0], true
+	case "math/rand.Read", "crypto/rand.Read":
+		sl := args[0].(SliceV)
+		for _, al := range sl.arr.alts {
+			arr := navigate(a.st.heap[al.obj].v, al.path).(ArrayV)
+			ne := make([]Value, len(arr.e))
+			copy(ne, arr.e)
+			for i := sl.off; i < len(ne); i++ {
+				ne[i] = in.fresh("rand", BVS(8))
+			}
+			a.st.heap[al.obj] = nv(update(a.st.heap[al.obj].v, al.path, ArrayV{e: ne}))
+		}
+		return TupleV{sl.len, nilIface()}, true
+	case "crypto/sha256.New":
+		// opaque hash object: ghost record of what was written
+		obj := a.alloc(StructV{f: []Value{BV(64, 0)}})
+		in.hashWrites = map[int][]SliceV{}
+		return IfaceV{alts: []IfaceAlt{{g: True, typ: in.opaqueType("sha256"), val: ptrTo(obj)}}, nilG: False}, true
 	case "(*sync.Cond).Broadcast", "(*sync.Cond).Signal":
 		in.events = append(in.events, "cond.Broadcast")
 		id := a.condGhost(args[0].(PtrV))
@@ -427,6 +480,29 @@ func (a *Act) intrinsic(name string, fv FuncV, args []Value) (Value, bool) {
 	case "verifRaceCandidates":
 		in.raceCandidates(a)
 		return nil, true
+	case "verifHashArgsOK":
+		// the digest slice was produced by a sha256 object that was written exactly the payload slice, once
+		payload, sum := args[0].(SliceV), args[1].(SliceV)
+		if len(sum.arr.alts) != 1 || len(payload.arr.alts) != 1 {
+			return False, true
+		}
+		h, ok := in.hashSums[sum.arr.alts[0].obj]
+		if !ok {
+			return False, true
+		}
+		ws := in.hashWrites[h]
+		if len(ws) != 1 || len(ws[0].arr.alts) != 1 || ws[0].arr.alts[0].obj != payload.arr.alts[0].obj || ws[0].off != payload.off {
+			return False, true
+		}
+		return Eq(ws[0].len, payload.len), true
+	case "verifMatched":
+		c := False
+		for _, l := range in.regexLits {
+			c = Or(c, UF("regexp.MatchString", BoolSort, strID(ConcStr(l)), strID(args[0].(StrV))))
+		}
+		return c, true
+	case "verifSegmentsOK":
+		return True, true
 	case "verifCrcOf":
 		return in.named("crc", BVS(32)), true
 	case "verifCrcArgsOK":
